@@ -611,20 +611,20 @@ def main():
                 # stateless exhaustive exploration of the schedules of one program, in this process:
                 # run with a schedule prefix, branch on every later decision at which both threads were enabled
                 frontier = [[]]
-                out = []
+                expl = []
                 complete = True
                 while frontier:
-                    if len(out) >= c["budget"]:
+                    if len(expl) >= c["budget"]:
                         complete = False
                         break
                     pfx = frontier.pop(0)
                     r = run_case(dict(c["base"], sched=pfx), mods)
                     r["consts"] = consts
-                    out.append(r)
+                    expl.append(r)
                     for i in r["both"]:
                         if i >= len(pfx):
                             frontier.append(r["trace"][:i] + [1 - r["trace"][i]])
-                results.append(dict(explored=out, complete=complete))
+                results.append(dict(explored=expl, complete=complete))
                 continue
             r = run_case(c, mods)
             r["consts"] = consts
